@@ -2207,4 +2207,492 @@ theorem pyLines_eq_tokLines (src : List Char) : pyLines src = tokLines src := by
   unfold isReBreak isTokBreak
   exact Bool.or_comm _ _
 
+/-! ## 13. The stack of layers: sort-based lookup = documented precedence -/
+
+theorem Inst.le_total (a b : Inst) : a.le b = true ∨ b.le a = true := by
+  unfold Inst.le
+  cases a.fromCmd <;> cases b.fromCmd <;> simp
+  all_goals
+    by_cases h : a.priority = b.priority
+    · simp [h]; omega
+    · have h' : ¬ b.priority = a.priority := fun e => h e.symm
+      simp [h, h']; omega
+
+theorem Inst.le_trans {a b c : Inst} (h1 : a.le b = true) (h2 : b.le c = true) : a.le c = true := by
+  unfold Inst.le at *
+  cases ha : a.fromCmd <;> cases hb : b.fromCmd <;> cases hc : c.fromCmd <;> simp [ha, hb, hc] at h1 h2 ⊢
+  all_goals (split at h1 <;> split at h2 <;> split <;> omega)
+
+/-- The first of the smallest elements (what a stable sort puts in front). -/
+def minFirst : List Inst → Option Inst
+  | [] => none
+  | x :: xs =>
+    match minFirst xs with
+    | none => some x
+    | some m => if x.le m then some x else some m
+
+def Sorted (l : List Inst) : Prop := l.Pairwise fun a b => a.le b = true
+
+theorem insertSorted_sorted (x : Inst) : ∀ {ys : List Inst}, Sorted ys → Sorted (insertSorted x ys) := by
+  intro ys
+  induction ys with
+  | nil => intro _; simp [insertSorted, Sorted]
+  | cons y ys ih =>
+    intro h
+    unfold Sorted at h ih ⊢
+    rw [List.pairwise_cons] at h
+    unfold insertSorted
+    by_cases hxy : x.le y = true
+    · rw [if_pos hxy, List.pairwise_cons, List.pairwise_cons]
+      refine ⟨fun z hz => ?_, h⟩
+      rcases List.mem_cons.mp hz with rfl | hz
+      · exact hxy
+      · exact Inst.le_trans hxy (h.1 z hz)
+    · rw [if_neg hxy, List.pairwise_cons]
+      refine ⟨fun z hz => ?_, ih h.2⟩
+      rcases mem_insertSorted hz with rfl | hz
+      · rcases Inst.le_total z y with a | a
+        · exact absurd a hxy
+        · exact a
+      · exact h.1 z hz
+
+theorem sortInsts_sorted : ∀ l : List Inst, Sorted (sortInsts l)
+  | [] => by simp [sortInsts, Sorted]
+  | x :: xs => by unfold sortInsts; exact insertSorted_sorted x (sortInsts_sorted xs)
+
+theorem find_insertSorted (p : Inst → Bool) (x : Inst) : ∀ {S : List Inst}, Sorted S →
+    (insertSorted x S).find? p =
+      if p x then (match S.find? p with
+        | none => some x
+        | some m => if x.le m then some x else some m)
+      else S.find? p := by
+  intro S
+  induction S with
+  | nil => intro _; by_cases hp : p x = true <;> simp [insertSorted, hp]
+  | cons y ys ih =>
+    intro h
+    unfold Sorted at h
+    rw [List.pairwise_cons] at h
+    unfold insertSorted
+    by_cases hxy : x.le y = true
+    · rw [if_pos hxy]
+      by_cases hp : p x = true
+      · rw [List.find?_cons, hp]; simp only [if_true]
+        cases hf : (y :: ys).find? p with
+        | none => rfl
+        | some m =>
+          have hm : m ∈ y :: ys := List.mem_of_find?_eq_some hf
+          have : x.le m = true := by
+            rcases List.mem_cons.mp hm with rfl | hm
+            · exact hxy
+            · exact Inst.le_trans hxy (h.1 m hm)
+          simp [this]
+      · rw [List.find?_cons, if_neg hp]; simp [hp]
+    · rw [if_neg hxy]
+      by_cases hpy : p y = true
+      · simp only [List.find?_cons, hpy]
+        by_cases hp : p x = true
+        · simp [hp, hxy]
+        · simp [hp]
+      · simp only [List.find?_cons, hpy]
+        exact ih h.2
+
+theorem find_sortInsts (p : Inst → Bool) : ∀ L : List Inst, (sortInsts L).find? p = minFirst (L.filter p)
+  | [] => rfl
+  | x :: xs => by
+    unfold sortInsts
+    rw [find_insertSorted p x (sortInsts_sorted xs), find_sortInsts p xs]
+    by_cases hp : p x = true
+    · simp only [hp, if_true, List.filter_cons, minFirst]
+    · simp only [hp, Bool.false_eq_true, if_false, List.filter_cons]
+
+theorem minFirst_mem : ∀ {X : List Inst} {m : Inst}, minFirst X = some m → m ∈ X
+  | [], _, h => by cases h
+  | x :: xs, m, h => by
+    unfold minFirst at h
+    cases hm : minFirst xs with
+    | none => rw [hm] at h; simp only [Option.some.injEq] at h; subst h; exact List.mem_cons_self
+    | some m' =>
+      rw [hm] at h
+      simp only at h
+      split at h
+      · simp only [Option.some.injEq] at h; subst h; exact List.mem_cons_self
+      · simp only [Option.some.injEq] at h; subst h; exact List.mem_cons_of_mem _ (minFirst_mem hm)
+
+theorem minFirst_eq_none : ∀ {X : List Inst}, minFirst X = none → X = []
+  | [], _ => rfl
+  | x :: xs, h => by
+    unfold minFirst at h
+    cases hm : minFirst xs with
+    | none => rw [hm] at h; cases h
+    | some m' => rw [hm] at h; simp only at h; split at h <;> cases h
+
+/-- Everything in `X` is `≤` everything in `Y`: the front of `X ++ Y` comes from `X`. -/
+theorem minFirst_append_left : ∀ {X Y : List Inst}, X ≠ [] → (∀ x ∈ X, ∀ y ∈ Y, x.le y = true) →
+    minFirst (X ++ Y) = minFirst X
+  | [], _, h, _ => absurd rfl h
+  | x :: xs, Y, _, hle => by
+    simp only [List.cons_append, minFirst]
+    by_cases hxs : xs = []
+    · subst hxs
+      simp only [List.nil_append, minFirst]
+      cases hm : minFirst Y with
+      | none => rfl
+      | some m => simp [hle x List.mem_cons_self m (minFirst_mem hm)]
+    · rw [minFirst_append_left hxs (fun a ha b hb => hle a (List.mem_cons_of_mem _ ha) b hb)]
+
+/-- Nothing in `X` is `≤` anything in `Y`: the front of `X ++ Y` comes from `Y`. -/
+theorem minFirst_append_right : ∀ {X Y : List Inst}, Y ≠ [] → (∀ x ∈ X, ∀ y ∈ Y, x.le y = false) →
+    minFirst (X ++ Y) = minFirst Y
+  | [], _, _, _ => rfl
+  | x :: xs, Y, hY, hlt => by
+    simp only [List.cons_append, minFirst]
+    rw [minFirst_append_right hY (fun a ha b hb => hlt a (List.mem_cons_of_mem _ ha) b hb)]
+    cases hm : minFirst Y with
+    | none => exact absurd (minFirst_eq_none hm) hY
+    | some m => simp [hlt x List.mem_cons_self m (minFirst_mem hm)]
+
+/-- All keys equal: the front is the head. -/
+theorem minFirst_all_le : ∀ {X : List Inst}, (∀ x ∈ X, ∀ y ∈ X, x.le y = true) → minFirst X = X.head?
+  | [], _ => rfl
+  | x :: xs, h => by
+    simp only [minFirst, List.head?_cons]
+    cases hm : minFirst xs with
+    | none => rfl
+    | some m => simp [h x List.mem_cons_self m (List.mem_cons_of_mem _ (minFirst_mem hm))]
+
+def proj (i : Inst) : Nat × Bool := (i.applicableTo.length, i.value)
+
+/-- Among configuration-file instances of one priority the front is the most specific one. -/
+theorem minFirst_firstMax (p : Nat) : ∀ {X : List Inst}, (∀ x ∈ X, x.fromCmd = false ∧ x.priority = p) →
+    (minFirst X).map proj = firstMax (X.map proj)
+  | [], _ => rfl
+  | x :: xs, h => by
+    have ih := minFirst_firstMax p (X := xs) (fun a ha => h a (List.mem_cons_of_mem _ ha))
+    simp only [minFirst, List.map_cons, firstMax]
+    cases hm : minFirst xs with
+    | none => rw [hm] at ih; simp only [Option.map_none] at ih; rw [← ih]; rfl
+    | some m =>
+      rw [hm] at ih
+      simp only [Option.map_some] at ih
+      rw [← ih]
+      have hx := h x List.mem_cons_self
+      have hmm := h m (List.mem_cons_of_mem _ (minFirst_mem hm))
+      have : x.le m = decide (m.applicableTo.length ≤ x.applicableTo.length) := by
+        unfold Inst.le; simp [hx.1, hx.2, hmm.1, hmm.2]
+      simp only [this, proj]
+      by_cases hl : m.applicableTo.length ≤ x.applicableTo.length <;> simp [hl] <;> rfl
+
+/-! ### The relevant instances -/
+
+def rel (code : String) (path : List String) (L : List Inst) : List Inst :=
+  (L.filter (·.name == code)).filter (·.applies path)
+
+theorem rel_append (code : String) (path : List String) (A B : List Inst) :
+    rel code path (A ++ B) = rel code path A ++ rel code path B := by
+  simp [rel, List.filter_append]
+
+theorem isErrorCodeEnabled_eq (insts : List Inst) (path : List String) (dflt : String → Bool) (code : String) :
+    isErrorCodeEnabled insts path dflt code =
+      ((minFirst (rel code path insts)).map (·.value)).getD (dflt code) := by
+  unfold isErrorCodeEnabled rel
+  rw [find_sortInsts]
+  cases minFirst (List.filter (fun x => x.applies path) (List.filter (fun x => x.name == code) insts)) <;> rfl
+
+theorem applies_nil (i : Inst) (path : List String) (h : i.applicableTo = []) : i.applies path = true := by
+  unfold Inst.applies; rw [h]; simp
+
+/-! ### The command-line layer -/
+
+theorem rel_settings (code : String) (path : List String) (s : List (String × Bool)) :
+    rel code path (settingsInsts s) = settingsInsts (s.filter (·.1 == code)) := by
+  unfold rel settingsInsts
+  induction s with
+  | nil => rfl
+  | cons e es ih =>
+    simp only [List.map_cons, List.filter_cons]
+    by_cases h : (e.1 == code) = true
+    · simp only [h, if_true, List.filter_cons, List.map_cons]
+      rw [applies_nil _ path rfl]
+      simp only [if_true]
+      exact congrArg _ ih
+    · simp only [h, Bool.false_eq_true, if_false]
+      exact ih
+
+theorem minFirst_settings (s : List (String × Bool)) :
+    (minFirst (settingsInsts s)).map (·.value) = (s.head?).map (·.2) := by
+  rw [minFirst_all_le]
+  · cases s <;> rfl
+  · intro x hx y hy
+    unfold settingsInsts at hx hy
+    obtain ⟨a, _, rfl⟩ := List.mem_map.mp hx
+    obtain ⟨b, _, rfl⟩ := List.mem_map.mp hy
+    simp [Inst.le]
+
+theorem settings_front (code : String) (path : List String) (s : List (String × Bool)) :
+    (minFirst (rel code path (settingsInsts s))).map (·.value) = lookupFirst s code := by
+  rw [rel_settings, minFirst_settings, List.head?_filter]; rfl
+
+theorem settingsInsts_cmd {s : List (String × Bool)} {i : Inst} (h : i ∈ settingsInsts s) :
+    i.fromCmd = true := by
+  unfold settingsInsts at h
+  obtain ⟨a, _, rfl⟩ := List.mem_map.mp h
+  rfl
+
+theorem mem_rel {code : String} {path : List String} {L : List Inst} {i : Inst} (h : i ∈ rel code path L) :
+    i ∈ L := (List.mem_filter.mp (List.mem_filter.mp h).1).1
+
+theorem cmd_le_any {x y : Inst} (hx : x.fromCmd = true) (hx2 : x.priority = 0) (hx3 : x.applicableTo = [])
+    (hy : y.fromCmd = false ∨ (y.fromCmd = true ∧ y.priority = 0 ∧ y.applicableTo = [])) : x.le y = true := by
+  unfold Inst.le
+  rcases hy with hy | ⟨h1, h2, h3⟩
+  · simp [hx, hy]
+  · simp [hx, h1, hx2, h2, hx3, h3]
+
+/-! ### The configuration-file layers -/
+
+theorem insts_props {f : CfgFile} {p : Nat} {i : Inst} (h : i ∈ f.insts p) :
+    i.fromCmd = false ∧ i.priority = p := by
+  unfold CfgFile.insts at h
+  rcases List.mem_append.mp h with h | h
+  · obtain ⟨a, _, rfl⟩ := List.mem_map.mp h; exact ⟨rfl, rfl⟩
+  · obtain ⟨o, _, ho⟩ := List.mem_flatMap.mp h
+    obtain ⟨a, _, rfl⟩ := List.mem_map.mp ho; exact ⟨rfl, rfl⟩
+
+theorem filesInsts_props : ∀ {fs : List CfgFile} {p : Nat} {i : Inst}, i ∈ filesInsts p fs →
+    i.fromCmd = false ∧ p ≤ i.priority
+  | [], _, _, h => by cases h
+  | f :: fs, p, i, h => by
+    unfold filesInsts at h
+    rcases List.mem_append.mp h with h | h
+    · have := insts_props h; exact ⟨this.1, by omega⟩
+    · have := filesInsts_props h; exact ⟨this.1, by omega⟩
+
+def topInsts (f : CfgFile) (p : Nat) : List Inst := f.top.map fun e => { name := e.1, value := e.2, priority := p }
+def ovInsts (f : CfgFile) (p : Nat) : List Inst :=
+  f.overrides.flatMap fun o => o.2.map fun e => { name := e.1, value := e.2, applicableTo := o.1, priority := p }
+
+theorem top_front (code : String) (path : List String) (f : CfgFile) (p : Nat) :
+    (minFirst (rel code path (topInsts f p))).map (·.value) = lookupFirst f.top code := by
+  have e : rel code path (topInsts f p) =
+      (f.top.filter (·.1 == code)).map fun e => ({ name := e.1, value := e.2, priority := p } : Inst) := by
+    unfold rel topInsts
+    induction f.top with
+    | nil => rfl
+    | cons e es ih =>
+      simp only [List.map_cons, List.filter_cons]
+      by_cases h : (e.1 == code) = true
+      · simp only [h, if_true, List.filter_cons, List.map_cons]
+        rw [applies_nil _ path rfl]
+        simp only [if_true]
+        exact congrArg _ ih
+      · simp only [h, Bool.false_eq_true, if_false]
+        exact ih
+  rw [e, minFirst_all_le]
+  · unfold lookupFirst
+    rw [← List.head?_filter]
+    cases f.top.filter (·.1 == code) <;> rfl
+  · intro x hx y hy
+    obtain ⟨a, _, rfl⟩ := List.mem_map.mp hx
+    obtain ⟨b, _, rfl⟩ := List.mem_map.mp hy
+    simp [Inst.le]
+
+theorem ov_entries (code : String) (path : List String) (f : CfgFile) (p : Nat) :
+    (rel code path (ovInsts f p)).map proj = ovEntries f path code := by
+  unfold ovInsts ovEntries
+  induction f.overrides with
+  | nil => rfl
+  | cons o os ih =>
+    simp only [List.flatMap_cons, rel_append, List.map_append, ih]
+    congr 1
+    unfold rel
+    simp only [Inst.applies]
+    induction o.2 with
+    | nil => by_cases h : (path.take o.1.length == o.1) = true <;> simp [h]
+    | cons e es ih2 =>
+      simp only [List.map_cons, List.filter_cons]
+      by_cases hn : (e.1 == code) = true
+      · simp only [hn, if_true, List.filter_cons]
+        by_cases h : (path.take o.1.length == o.1) = true
+        · simp only [h, if_true, List.map_cons, List.filter_cons, hn] at ih2 ⊢
+          rw [ih2]; rfl
+        · simp only [h, Bool.false_eq_true, if_false] at ih2 ⊢
+          exact ih2
+      · simp only [hn, Bool.false_eq_true, if_false]
+        by_cases h : (path.take o.1.length == o.1) = true
+        · simp only [h, if_true, List.filter_cons, hn, Bool.false_eq_true, if_false] at ih2 ⊢
+          exact ih2
+        · simp only [h, Bool.false_eq_true, if_false] at ih2 ⊢
+          exact ih2
+
+theorem insts_split (f : CfgFile) (p : Nat) : f.insts p = topInsts f p ++ ovInsts f p := rfl
+
+theorem ovInsts_props {f : CfgFile} (hwf : f.wf = true) {p : Nat} {i : Inst} (h : i ∈ ovInsts f p) :
+    i.fromCmd = false ∧ i.priority = p ∧ 1 ≤ i.applicableTo.length := by
+  unfold ovInsts at h
+  obtain ⟨o, ho, hi⟩ := List.mem_flatMap.mp h
+  obtain ⟨a, _, rfl⟩ := List.mem_map.mp hi
+  unfold CfgFile.wf at hwf
+  have := List.all_eq_true.mp hwf o ho
+  refine ⟨rfl, rfl, ?_⟩
+  simp only
+  cases h1 : o.1 with
+  | nil => rw [h1] at this; simp at this
+  | cons a as => simp
+
+/-- One file: the most specific applicable override entry, else the top-level entry. -/
+theorem file_front (code : String) (path : List String) (f : CfgFile) (hwf : f.wf = true) (p : Nat) :
+    (minFirst (rel code path (f.insts p))).map (·.value) = fileValue f path code := by
+  rw [insts_split, rel_append]
+  unfold fileValue
+  rw [← ov_entries code path f p]
+  by_cases hO : rel code path (ovInsts f p) = []
+  · rw [hO, List.append_nil, top_front]; rfl
+  · rw [minFirst_append_right hO]
+    · have hE := minFirst_firstMax p (X := rel code path (ovInsts f p))
+        (fun x hx => by have := ovInsts_props hwf (mem_rel hx); exact ⟨this.1, this.2.1⟩)
+      rw [← hE]
+      cases hm : minFirst (rel code path (ovInsts f p)) with
+      | none => exact absurd (minFirst_eq_none hm) hO
+      | some m => rfl
+    · intro x hx y hy
+      have hx' := mem_rel hx
+      obtain ⟨hy1, hy2, hy3⟩ := ovInsts_props hwf (mem_rel hy)
+      unfold topInsts at hx'
+      obtain ⟨a, _, rfl⟩ := List.mem_map.mp hx'
+      unfold Inst.le
+      simp [hy1, hy2]
+      intro e; rw [e] at hy3; simp at hy3
+
+theorem files_front (code : String) (path : List String) : ∀ (fs : List CfgFile) (p : Nat),
+    (∀ f ∈ fs, f.wf = true) →
+    (minFirst (rel code path (filesInsts p fs))).map (·.value) = filesValue path code fs
+  | [], _, _ => rfl
+  | f :: fs, p, hwf => by
+    unfold filesInsts filesValue
+    rw [rel_append, ← file_front code path f (hwf f List.mem_cons_self) p,
+      ← files_front code path fs (p + 1) (fun g hg => hwf g (List.mem_cons_of_mem _ hg))]
+    by_cases hF : rel code path (f.insts p) = []
+    · rw [hF]; rfl
+    · rw [minFirst_append_left hF]
+      · cases hm : minFirst (rel code path (f.insts p)) with
+        | none => exact absurd (minFirst_eq_none hm) hF
+        | some m => rfl
+      · intro x hx y hy
+        have hx' := insts_props (mem_rel hx)
+        have hy' := filesInsts_props (mem_rel hy)
+        unfold Inst.le
+        have : x.priority ≠ y.priority := by omega
+        simp [hx'.1, hy'.1, this]
+        omega
+
+/-- **The code's lookup is the documented precedence.** -/
+theorem enabledStack_spec (s : List (String × Bool)) (files : List CfgFile) (hwf : ∀ f ∈ files, f.wf = true)
+    (path : List String) (dflt : String → Bool) (code : String) :
+    enabledStack s files path dflt code = specEnabled (lookupFirst s code) files path dflt code := by
+  unfold enabledStack stackInsts specEnabled
+  rw [isErrorCodeEnabled_eq, rel_append, ← settings_front code path s, ← files_front code path files 0 hwf]
+  by_cases hS : rel code path (settingsInsts s) = []
+  · rw [hS]; rfl
+  · rw [minFirst_append_left hS]
+    · cases hm : minFirst (rel code path (settingsInsts s)) with
+      | none => exact absurd (minFirst_eq_none hm) hS
+      | some m => rfl
+    · intro x hx y hy
+      have hx' := mem_rel hx
+      have hy' := filesInsts_props (mem_rel hy)
+      unfold settingsInsts at hx'
+      obtain ⟨a, _, rfl⟩ := List.mem_map.mp hx'
+      unfold Inst.le
+      simp [hy'.1]
+
+/-! ### What `main()` puts into the settings dict -/
+
+theorem lookupFirst_setKey (k : String) (v : Bool) (l : List (String × Bool)) (k' : String) :
+    lookupFirst (setKey k v l) k' = if k' = k then some v else lookupFirst l k' := by
+  unfold lookupFirst
+  induction l with
+  | nil =>
+    by_cases h : k' = k
+    · subst h; simp [setKey]
+    · have : (k == k') = false := by simpa using fun e => h e.symm
+      simp [setKey, h, this]
+  | cons e es ih =>
+    unfold setKey
+    by_cases he : (e.1 == k) = true
+    · have hk : e.1 = k := by simpa using he
+      rw [if_pos he]
+      by_cases h : k' = k
+      · subst h; simp [List.find?_cons, hk]
+      · have : (e.1 == k') = false := by rw [hk]; simpa using fun e => h e.symm
+        simp [List.find?_cons, this, h]
+    · rw [if_neg he]
+      simp only [List.find?_cons]
+      by_cases h2 : (e.1 == k') = true
+      · have hk : e.1 = k' := by simpa using h2
+        have : ¬ k' = k := by rw [← hk]; simpa using he
+        simp [h2, this]
+      · simp only [h2]; exact ih
+
+theorem lookupFirst_foldl (v : Bool) (ks : List String) : ∀ (l : List (String × Bool)) (k' : String),
+    lookupFirst (ks.foldl (fun l k => setKey k v l) l) k' = if k' ∈ ks then some v else lookupFirst l k' := by
+  induction ks with
+  | nil => intro l k'; rfl
+  | cons k ks ih =>
+    intro l k'
+    rw [List.foldl_cons, ih, lookupFirst_setKey]
+    by_cases h1 : k' ∈ ks
+    · simp [h1]
+    · by_cases h2 : k' = k
+      · simp [h2]
+      · simp [h1, h2]
+
+theorem lookupFirst_const (v : Bool) (cs : List String) (k : String) :
+    lookupFirst (cs.map (·, v)) k = if k ∈ cs then some v else none := by
+  unfold lookupFirst
+  induction cs with
+  | nil => rfl
+  | cons c cs ih =>
+    simp only [List.map_cons, List.find?_cons, List.mem_cons]
+    by_cases h : c = k
+    · subst h; simp
+    · have h1 : (c == k) = false := by simpa using h
+      have h2 : ¬ k = c := fun e => h e.symm
+      simp only [h1, h2, false_or]; exact ih
+
+/-- The settings dict says about a code what the documented reading of the flags says. -/
+theorem settings_value (c : Cli) (allCodes : List String) (code : String) :
+    lookupFirst (c.settings allCodes) code = c.value allCodes code := by
+  unfold Cli.settings Cli.value
+  simp only [lookupFirst_foldl, List.contains_iff_mem]
+  by_cases hd : code ∈ c.disable
+  · simp [hd]
+  · by_cases he : code ∈ c.enable
+    · simp [hd, he]
+    · simp only [hd, he, if_false]
+      have hnil : lookupFirst [] code = none := rfl
+      cases c.enableAll <;> cases c.disableAll <;> by_cases ha : code ∈ allCodes <;>
+        simp [lookupFirst_const, hnil, ha]
+
+/-- A command-line entry decides, whatever the files (well-formed or not) and the default. -/
+theorem cmd_front (s : List (String × Bool)) (files : List CfgFile) (path : List String)
+    (dflt : String → Bool) (code : String) (v : Bool) (h : lookupFirst s code = some v) :
+    enabledStack s files path dflt code = v := by
+  unfold enabledStack stackInsts
+  rw [isErrorCodeEnabled_eq, rel_append]
+  have hS : rel code path (settingsInsts s) ≠ [] := by
+    intro e
+    have := settings_front code path s
+    rw [e, h] at this
+    cases this
+  rw [minFirst_append_left hS, settings_front, h]
+  · rfl
+  · intro x hx y hy
+    have hx' := mem_rel hx
+    have hy' := filesInsts_props (mem_rel hy)
+    unfold settingsInsts at hx'
+    obtain ⟨a, _, rfl⟩ := List.mem_map.mp hx'
+    unfold Inst.le
+    simp [hy'.1]
+
 end Pya.C11
